@@ -45,6 +45,12 @@ def rand_dep(rng, ids_):
     if r < 0.3:
         return copy.deepcopy(FILE_DEP2)
     d = {"k": "dep", "name": rng.choice(["da", "db", "dc"]), "version": rng.choice(["1.0", "1.9", "1.10"])}
+    if rng.random() < 0.15:
+        # a directory source written with an explicit package=None (the directory need not exist for rendering)
+        d["source"] = {"package": None, "subdir": "static/lib"}
+        d["script"] = [{"src": "p.js"}]
+        d["nofs"] = True
+        return d
     if rng.random() < 0.5:
         d["source"] = {"href": rng.choice(["https://cdn.example/x", "https://cdn.example/y/"])}
         d["script"] = [{"src": rng.choice("zyxwv") + ids_.next("u") + ".js", "defer": ""} for _ in range(rng.randint(1, 3))]
@@ -330,7 +336,10 @@ def run_history(ctx, h, scratch):
     first = {}
     base = fp(obj)
     tf = has_tf(kind, r)
+    nofs = any(isinstance(x, dict) and x.get("nofs") for x in (gen.walk(r) if kind in ("tag", "list", "dep") else [y for c in r["content"] for y in gen.walk(c)]))
     for name in h["ops"]:
+        if nofs and name.startswith(("save_html", "copy_to")):
+            continue  # the directory source of this dependency does not exist on disk
         if tf and name.startswith("get_html_string"):
             continue  # asking an un-expanded tree for markup raises by design (C09)
         ctx.count("monitor.purity")
